@@ -22,12 +22,13 @@ type PropSpec struct {
 }
 
 type Finding struct {
-	ID       string `json:"id"`
-	Property string `json:"property"`
-	Status   string `json:"status"` // "known" | "fixed"
-	Commit   string `json:"commit,omitempty"`
-	What     string `json:"what"`
-	Witness  string `json:"witness,omitempty"`
+	ID       string   `json:"id"`
+	Property string   `json:"property"`
+	Status   string   `json:"status"` // "known" | "fixed"
+	Commit   string   `json:"commit,omitempty"`
+	What     string   `json:"what"`
+	Also     []string `json:"also,omitempty"` // other properties whose checks run the same harness
+	Witness  string   `json:"witness,omitempty"`
 }
 
 func loadFindings() map[string]Finding {
@@ -242,7 +243,7 @@ func RunCheck(spec *PropSpec, tier string, seed int64, nworkers int) int {
 					continue
 				}
 				f, listed := findings[id]
-				if listed && f.Status == "known" && f.Property == spec.ID {
+				if listed && f.Status == "known" && (f.Property == spec.ID || contains(f.Also, spec.ID)) {
 					if !knownPrinted[id] {
 						knownPrinted[id] = true
 						fmt.Printf("KNOWN-FINDING: property=%s %s: %s (witness %v)\n", spec.ID, id, f.What, w.Pretty)
@@ -398,4 +399,13 @@ func nz(s []string) []string {
 		return []string{}
 	}
 	return s
+}
+
+func contains(l []string, s string) bool {
+	for _, x := range l {
+		if x == s {
+			return true
+		}
+	}
+	return false
 }
